@@ -42,7 +42,7 @@ Record matcher := {
   m_find_candidate : bytes -> option (bool * nat);     (* find_candidate_line: (confirmed?, offset) *)
   m_line_term : option lineterm;                       (* line_terminator() *)
   m_nonmatching : byte -> bool;                        (* non_matching_bytes().contains(b) (false if None) *)
-  m_find : bytes -> option (nat * nat);                (* find(haystack) — used by the multi-line searcher *)
+  m_find_at : bytes -> nat -> option (nat * nat);      (* find_at(haystack, at) — used by the multi-line searcher *)
 }.
 
 Record core := {
